@@ -62,6 +62,13 @@ def run(chk, repo):
     writers(chk, repo)
     from . import c11
     c11.writers_registered(chk, repo, "R21.6")
+    # the dispatcher takes every frame with an index below MAX_PROGS for a
+    # cyclic frame of the group in that slot: no other frame of the master
+    # carries such an index (shared with C12)
+    from . import c12
+    chk.doc("R12.4", "index spaces of fast groups, slow groups and "
+                     "datagram frames are disjoint (shared with C12)")
+    c12.index_spaces(chk, repo)
 
 
 def template_untouched(chk, repo):
@@ -684,3 +691,7 @@ def writers(chk, repo):
 
 # added rules (appended to the explanation the evidence file carries)
 EXPLANATION += (" " + 'Added during the build (DESIGN.md 4.31, second table): nothing binds another attribute to the sterile template and writes it in place; the program-table slot written was looked up in the shared table and found empty; write commands enter packets through append_writer only (shared with C11); the guard bound folded.')
+EXPLANATION += (
+    " Shared with C12 (R12.4): datagram frames and slow groups never carry "
+    "an index below MAX_PROGS, which is all the dispatcher looks at to take "
+    "a frame for a fast group's.")
